@@ -20,6 +20,7 @@ NA = {
 
 # engine -> (kind text)
 ENGINES = {
+ "otlpretry": (["C14"], "six real OTLP exporters against a scripted collector over an in-memory transport inside the bubble (real net/http and gRPC stacks on fake time); reference retry-policy oracle"),
  "globalsim": (["C16"], "token scheduler over simgen-instrumented otel + internal/global with the real SDK installed as delegate; shadow-lock cycle detection"),
  "lifecycle": (["C15"], "token scheduler over simgen-instrumented sdk/trace, sdk/metric, sdk/log providers with stock processors/readers/exporters behind thin counting wrappers"),
  "metricsim": (["C02","C08","C12"], "token scheduler over simgen-instrumented sdk/metric and internal/aggregate; delta + cumulative ManualReader, optional PeriodicReader with scripted exporter; bit-decoded conservation oracle, joint collection points"),
@@ -29,6 +30,10 @@ ENGINES = {
 }
 
 CHECKS = {
+ "C14": dict(engine="otlpretry",
+   text="seeded search over collector response sequences (every HTTP status of the table with and without Retry-After, every gRPC code with and without RetryInfo, partial successes, slow responses, temporary dial errors), retry configurations (disabled, zero/short/long elapsed limits), exporter and context timeouts and Shutdown instants, for each of the six OTLP exporters talking to a real in-bubble net/http or gRPC server on exact simulated time; reference-policy oracle over the collector's attempt log: retry only after retryable outcomes, identical payloads, server-supplied delay honoured, stop at first success / non-retryable outcome and report it, no attempt after the deadline or after Shutdown returned, bounded return time, give up only when the budget requires it, partial success reported to the error handler",
+   ref="DESIGN.md §3 C14",
+   note="goroutines of net/http and gRPC are not scheduled by the simulator; one export call in flight at a time; HTTP transport faults are temporary dial errors and per-attempt client timeouts only; known findings C14-K1 (Retry-After as nanoseconds) and C14-K2 (otlploghttp Shutdown does not interrupt a retrying export) are reported as KNOWN-FINDING"),
  "C16": dict(engine="globalsim",
    text="seeded search over interleavings of goroutines that obtain tracers and meters from the global API, create instruments (same and different names, every synchronous kind plus observable counters), record bit-coded measurements, start/end spans, register and unregister callbacks, while another goroutine calls SetMeterProvider / SetTracerProvider / SetTextMapPropagator in any order; oracle: may/must windows around installation for measurements and spans, one probe measurement through every instrument object ever handed out, callbacks invoked exactly once per SDK collection unless unregistered, no panic, no deadlock (cycle in the shadow lock graph) and no call that never returns",
    ref="DESIGN.md §3 C16",
